@@ -350,6 +350,9 @@ def run(run, ix, tier):
     check_specials(run, ix)
     check_rounding_step(run, ix)
     check_digit_exactness(run, ix)
+    # L-R1 (shared with C07): repr at mp.dps > 4300 prints more digits than int() accepts in one piece
+    from .c07 import check_literal_length
+    check_literal_length(run, ix)
 
 
 # ---------------------------------------------------------------------------------------------
